@@ -447,6 +447,7 @@ type family struct {
 
 var familyDefs = []family{
 	// small families first: under a time cap the large ones are the ones cut short
+	{"F8-code", []int{0, 2}, []string{"codeA(X)", "codeB(X)", "code0(X)", "snap", "revN", "commit(false)", "reopen-disk(true)"}},
 	{"F7-shared-nodes", []int{0, 2}, []string{"st(X,0,2)", "st(X,1,2)", "st(X,0,1)", "fin(false)", "fork", "commit(false)"}},
 	{"F5-copy", []int{0}, []string{"add1(X)", "logrefund", "logB", "snap", "revN", "fork", "copy"}},
 	{"F6-values", []int{0, 2}, []string{"st(X,1,127)", "st(X,1,128)", "st(X,1,256)", "st(X,1,full)", "st(X,1,2)", "st(X,0,0)", "fin(true)", "commit(false)", "copy", "reopen-disk(true)"}},
@@ -929,7 +930,7 @@ func TestCheck(t *testing.T) {
 			if run.Quick() && (strings.HasPrefix(fam.name, "F2") || fam.name == "F6-values") && os.Getenv("VERIF_C09_DEPTH") == "" {
 				fdepth = depth - 1 // quick: the two families without snapshots (no ill-formed sequences to skip) one level shallower
 			}
-			if (fam.name == "F5-copy" || fam.name == "F7-shared-nodes") && os.Getenv("VERIF_C09_DEPTH") == "" {
+			if (fam.name == "F5-copy" || fam.name == "F7-shared-nodes" || fam.name == "F8-code") && os.Getenv("VERIF_C09_DEPTH") == "" {
 				fdepth = depth + 1 // small alphabet; the aliasing patterns between a copy and its original need 6 steps
 			}
 			run.Set("depth_"+fam.name, fdepth)
